@@ -165,9 +165,10 @@ pub fn c16(t: &Trace, r: &mut Report) {
         }
         if pressing {
             let disc = (k.sr * 2e-3).floor() as usize;
-            if cur.len() >= k.cap && k.cap > disc {
-                // capture window = the last `cap` samples of this press; the newest `disc` are excluded
-                let w = &cur[cur.len() - k.cap..cur.len() - disc];
+            if cur.len() > disc && k.cap > disc {
+                // capture window = the last `cap` samples of this press (all of it if it is shorter, which only a
+                // premature press report can cause); the newest `disc` are excluded
+                let w = &cur[cur.len().saturating_sub(k.cap)..cur.len() - disc];
                 let mean = w.iter().sum::<f64>() / w.len() as f64;
                 let corr = |a: f64| a - (a - a * a) * k.k;
                 let want = (corr(mean) / k.boundary).min(1.0);
